@@ -1204,7 +1204,8 @@ def check_shared_parts(acc):
                 acc.violation({"oracle": "entry_point_equals_folded_stack", "position": "prepend_middleware" if prepend else "default", "container": "sequence", "kind": "shared parts"}, {"case": case, "observed": repr(got)[:400], "expected": repr(exp)[:400]})
 
 
-BIGPASS_SIZES = {"quick": [255, 256, 257, 999, 1000, 1001, 1002, 1003, 1025, 2049, 4099], "thorough": [255, 256, 257, 999, 1000, 1001, 1002, 1003, 1025, 2049, 4099, 8193, 16387, 65539]}
+BIGPASS_LIGHT = [True]
+BIGPASS_SIZES = {"quick": [255, 256, 257, 999, 1000, 1001, 1002, 1003, 1025, 2049, 4099, 16387, 65539], "thorough": [255, 256, 257, 999, 1000, 1001, 1002, 1003, 1025, 2049, 4099, 8193, 16387, 65539]}
 
 
 def check_bigpass(n, acc):
@@ -1220,9 +1221,12 @@ def check_bigpass(n, acc):
         "drop": (_DropThirds, [("String", "s")] + [("Entry", k) for i, k in enumerate(keys) if i % 3] + [("ExplicitComment", "end")]),
         "tag,twice,tag": (None, [("String", "s")] + [x for k in keys for x in (("Entry", k + "!!"), ("ExplicitComment", "after " + k + "!"))] + [("ExplicitComment", "end")]),
     }
+    light = n > 5000 and BIGPASS_LIGHT[0]
     for name, (cls, exp) in expectations.items():
-        for inplace in (True, False):
-            for parallel in (True, False):
+        if light and name != "tag":
+            continue  # (the largest sizes of the quick tier: one middleware, one mode, both routes)
+        for inplace in (True, False) if not light else (True,):
+            for parallel in (True, False) if not light else (True,):
                 mk = lambda c: c(allow_inplace_modification=inplace, allow_parallel_execution=parallel)
                 stack = (lambda: [mk(_TagKeys), mk(_Twice), mk(_TagKeys)]) if cls is None else (lambda: [mk(cls)])
                 case = {"bigpass": n, "middleware": name, "inplace": inplace, "parallel_allowed": parallel}
@@ -1246,6 +1250,7 @@ def check_bigpass(n, acc):
 
 def run_shard(shard, tier, acc):
     if shard[0] == "bigpass":
+        BIGPASS_LIGHT[0] = tier == "quick"
         return check_bigpass(shard[1], acc)
     if shard[0] == "reentry":
         check_shared_parts(acc)
